@@ -112,7 +112,17 @@ def negated_chain(case: dict, failure: dict) -> bool:
     return negated_chain_in(case.get("src", ""))
 
 
+def classical_negation(case: dict, failure: dict) -> bool:
+    """F-classical: the source contains a classically negated atom `-p(..)`"""
+    for stm in _prg(case.get("src", "")):
+        for n in astutil.walk(stm):
+            if n.ast_type == ASTType.SymbolicAtom and n.symbol.ast_type == ASTType.UnaryOperation:
+                return True
+    return False
+
+
 TRIGGERS: dict[str, Callable[[dict, dict], bool]] = {
+    "classical_negation": classical_negation,
     "selfref_equality": selfref_equality,
     "negated_chain": negated_chain,
 }
